@@ -54,7 +54,7 @@ func Position(r io.Reader, offset int) (line, col int, context string) {
 func positionContext(l *Input, line, col int) (context string) {
 	for {
 		c := l.Peek(0)
-		if c == 0 && l.Err() != nil || c == '\n' || c == '\r' {
+		if c == 0 && l.Err() != nil || c == '\n' || c == '\r' || c == 0xE2 && l.Peek(1) == 0x80 && (l.Peek(2) == 0xA8 || l.Peek(2) == 0xA9) {
 			break
 		}
 		l.Move(1)
